@@ -3,6 +3,7 @@
 Oracles: fractions.Fraction for numbers; the algebraic laws themselves (offline over the recorded grid of ordered
 pairs) for texts, dates/date-times and blank; explicit table for the blank clauses."""
 import datetime as dt
+import re
 from fractions import Fraction
 
 from .. import pipeline, wbspec
@@ -33,7 +34,9 @@ NUMS_Q = [0, 1, -1, 2, -2, 3, 9, 10, 99, 100, -100, 2 ** 53 - 1, 2 ** 53, 2 ** 5
           1e-3, 12345678.9, 12345678.91, 0.9999999999999999, 1.0000000000000002, 42, 42.5]
 TEXTS_Q = ['', 'a', 'b', 'A', 'B', 'ab', 'aB', 'Ab', 'abc', 'abd', 'ABC', 'x', ' x', 'x ', 'Z', 'z', 'Я', 'я', 'é',
            '10', '9', '09', '1e3', '1000', '1.5', '1.50', 'nan', 'NaN', 'inf', '-inf', 'Infinity', 'TRUE', 'true',
-           '0', '-5', '1_0', ' 7 ', 'a1', 'a10', 'a2', '#N/A?']
+           '0', '-5', '1_0', ' 7 ', 'a1', 'a10', 'a2', '#N/A?',
+           # spellings only Python's int() / float() read as numbers: plain texts for a spreadsheet
+           '1_0', '1_000', '\u0663', '\uff11\uff10', 'infinity', '1__0', '0x10', '1e1_0']
 D0 = dt.datetime(2024, 1, 1)
 DATES_Q = [D0, dt.date(2024, 1, 1), D0 + dt.timedelta(hours=1, minutes=10, seconds=10), dt.datetime(2024, 1, 1, 23, 59, 59),
            dt.datetime(2024, 1, 2), dt.date(2024, 1, 2), dt.datetime(2023, 12, 31, 23, 59, 59), dt.date(2023, 12, 31),
@@ -100,6 +103,9 @@ def _as_bool(out):
     return out.value if out.ok and isinstance(out.value, bool) else None
 
 
+_NUMTXT = re.compile(r'\s*[+-]?(\d+\.?\d*|\.\d+)([eE][+-]?\d+)?\s*', re.ASCII)
+
+
 def check_pair_laws(r, kind, a, b, res_ab, res_ba, case):
     """res_xy: dict op -> bool|None as observed"""
     r.count('law_checks')
@@ -117,6 +123,9 @@ def check_pair_laws(r, kind, a, b, res_ab, res_ba, case):
             bad.append('>= is not the negation of <')
         if res_ba is not None and res_ba.get('>') is not None and res_ab['<'] != res_ba['>']:
             bad.append('a<b differs from b>a')
+        if kind == 'text' and res_ab['='] and a.casefold() != b.casefold() and not (_NUMTXT.fullmatch(a) and _NUMTXT.fullmatch(b)):
+            # two numeric texts may be the same number in two spellings; a text that is no number equals only itself
+            bad.append('two different texts, at least one of them no number, compare equal')
     return bad
 
 
